@@ -393,7 +393,9 @@ def install(sc3_path='/repo'):
     M.threading = sim.threading_module()
     C.threading = sim.threading_module()
     M.time = sim.time_module()
-    sc3.LIB_PORT_RANGE = 4000
+    import os
+    sc3.LIB_PORT = 20000 + (os.getpid() * 13) % 30000
+    sc3.LIB_PORT_RANGE = 400
     sc3.init('rt', verbosity='CRITICAL', blocking=True)
     logging.getLogger().setLevel(logging.CRITICAL + 10)
     sim.settle()
